@@ -7,6 +7,7 @@ CONSTANTS
     CapAtBlobSize = TRUE
     BgAllFiles = TRUE
     WaitHonoursTimeout = TRUE
+    ThresholdOnEffective = TRUE
     AllowReg = FALSE
 SPECIFICATION FairSpec
 PROPERTIES WaitReturns
